@@ -37,6 +37,8 @@ type Config struct {
 	Trace       bool
 	LogAccess   bool
 	MapOrderRev bool
+	NoMerge     bool
+	MergeFuncs  map[string]bool
 }
 
 type frame struct {
@@ -52,6 +54,7 @@ type frame struct {
 	panicking bool
 	panicVal  interface{}
 	goID      int
+	skipPhis  bool
 }
 
 type deferred struct {
@@ -103,6 +106,10 @@ type Exec struct {
 	assumptions map[string]bool
 	harness     string
 	tracker     *violTracker
+	merging     int
+	mergedCalls int
+	ifConverted int
+	specCond    *Term
 	model       Model
 	relVars     []*Term
 	relSeen     map[int]bool
@@ -578,10 +585,18 @@ func (e *Exec) visitInstr(fr *frame, instr ssa.Instruction) continuation {
 	case *ssa.Panic:
 		panic(targetPanic{fr.get(instr.X)})
 	case *ssa.Store:
+		if e.merging > 0 && !localRoot(instr.Addr) {
+			panic(mergeAbort{"store to non-local"})
+		}
 		e.store(deref(instr.Addr.Type()), fr.get(instr.Addr), fr.get(instr.Val), instr)
 	case *ssa.If:
 		if e.tryChain(fr, instr) {
 			return kJump
+		}
+		if ct := fr.get(instr.Cond).(*Term); !ct.IsConst() {
+			if _, known := e.known[ct.ID]; !known && e.tryIfConvert(fr, instr, ct) {
+				return kJump
+			}
 		}
 		succ := 1
 		if e.Decide(fr.get(instr.Cond).(*Term)) {
@@ -599,6 +614,9 @@ func (e *Exec) visitInstr(fr *frame, instr ssa.Instruction) continuation {
 		}
 		fr.defers = append(fr.defers, &deferred{fn: fn, args: args, instr: instr})
 	case *ssa.Go:
+		if e.merging > 0 {
+			panic(mergeAbort{"go"})
+		}
 		fn, args := e.prepareCall(fr, &instr.Call)
 		// run the goroutine to completion, in spawn order
 		e.nGo++
@@ -647,6 +665,9 @@ func (e *Exec) visitInstr(fr *frame, instr ssa.Instruction) continuation {
 	case *ssa.Lookup:
 		fr.env[instr] = e.lookup(instr, fr.get(instr.X), fr.get(instr.Index))
 	case *ssa.MapUpdate:
+		if e.merging > 0 {
+			panic(mergeAbort{"map update"})
+		}
 		m := fr.get(instr.Map).(*MapV)
 		if m == nil {
 			panic(targetPanic{IfaceV{T: e.runtimeErrorType(), V: e.mkString("assignment to entry in nil map")}})
@@ -716,10 +737,16 @@ func (e *Exec) callSSA(caller *frame, pos token.Pos, fn *ssa.Function, args []Va
 		fr.goID = caller.goID
 	}
 	if h, ok := e.hooks[name]; ok {
+		if e.merging > 0 {
+			panic(mergeAbort{"hooked call " + name})
+		}
 		return h(e, fr, args)
 	}
 	if fn.Parent() == nil && strings.HasPrefix(fn.Name(), "verif") && fn.Signature.Recv() == nil {
 		if h, ok := apiHooks[fn.Name()]; ok {
+			if e.merging > 0 {
+				panic(mergeAbort{"harness api call"})
+			}
 			return h(e, fr, args)
 		}
 	}
@@ -733,6 +760,20 @@ func (e *Exec) callSSA(caller *frame, pos token.Pos, fn *ssa.Function, args []Va
 	}
 	if fn.TypeParams().Len() > 0 && len(fn.TypeArgs()) == 0 {
 		panic(errorf("uninstantiated generic %s", name))
+	}
+	if e.mergeCandidate(fn) {
+		if res, ok := e.callMerged(caller, fn, args, env); ok {
+			return res
+		}
+	}
+	return e.callSSAraw(caller, fn, args, env)
+}
+
+// callSSAraw interprets the body of fn.
+func (e *Exec) callSSAraw(caller *frame, fn *ssa.Function, args []Value, env []Value) Value {
+	fr := &frame{e: e, caller: caller, fn: fn}
+	if caller != nil {
+		fr.goID = caller.goID
 	}
 	e.depth++
 	if e.depth > 400 {
@@ -760,7 +801,8 @@ func (e *Exec) callSSA(caller *frame, pos token.Pos, fn *ssa.Function, args []Va
 
 func isControl(r interface{}) bool {
 	switch r.(type) {
-	case pathAbort, engineError, boundExhausted, pathStop, budgetViolation:
+	case pathAbort, engineError, boundExhausted, pathStop, budgetViolation, mergeAbort:
+		// (a mergeAbort escaping an if-conversion arm is caught by runArm)
 		return true
 	}
 	return false
@@ -804,7 +846,9 @@ func (e *Exec) runFrame(fr *frame) {
 			}
 			n++
 		}
-		if n > 0 {
+		if fr.skipPhis {
+			fr.skipPhis = false
+		} else if n > 0 {
 			pred := -1
 			for i, p := range fr.block.Preds {
 				if p == fr.prevBlock {
